@@ -88,8 +88,12 @@ class ProvXMLSerializer(Serializer):
             ns.prefix: ns.uri
             for ns in self.document._namespaces.get_registered_namespaces()
         }
-        if self.document._namespaces._default:
-            nsmap[None] = self.document._namespaces._default.uri
+        # a bundle's own default namespace takes precedence over the document's
+        default_namespace = (
+            bundle._namespaces._default or self.document._namespaces._default
+        )
+        if default_namespace:
+            nsmap[None] = default_namespace.uri
         for namespace in bundle.namespaces:
             if namespace not in nsmap:
                 nsmap[namespace.prefix] = namespace.uri
